@@ -2,7 +2,7 @@
     Used only by the correspondence check (never inside a property theorem). *)
 From Coq Require Import String Ascii List NArith ZArith DecimalString.
 Import ListNotations.
-Open Scope string_scope.
+Local Open Scope string_scope.
 
 Definition show_N (n : N) : string := NilZero.string_of_uint (N.to_uint n).
 Definition show_nat (n : nat) : string := show_N (N.of_nat n).
